@@ -363,11 +363,13 @@ ElemForEach::sortChildren(
     // Reserve the space now...
     keys.reserve(m_sortElemsCount);
 
-    // Get some temporary strings to use for evaluting the AVTs...
-    const StylesheetExecutionContext::GetCachedString   theTemp1(executionContext);
+    // Each sort key keeps a pointer to its language string until the
+    // sort is done, so every xsl:sort needs a string of its own...
+    XalanVector<XalanDOMString>     langStrings(executionContext.getMemoryManager());
 
-    XalanDOMString&     langString = theTemp1.get();
+    langStrings.resize(m_sortElemsCount);
 
+    // Get a temporary string to use for evaluting the AVTs...
     const StylesheetExecutionContext::GetCachedString   theTemp2(executionContext);
 
     XalanDOMString&     scratchString = theTemp2.get();
@@ -378,6 +380,8 @@ ElemForEach::sortChildren(
     {
         const ElemSort* const   sort = m_sortElems[i];
         assert(sort != 0);
+
+        XalanDOMString&     langString = langStrings[i];
 
         const AVT* avt = sort->getLangAVT();
 
